@@ -8,7 +8,7 @@ from ..program import AnalysisError, Program, norm, walk_local, ancestors
 from ..report import Check
 from ..types import Types
 from ..util import calls_in, fkey, is_method_call, node_calls, path_of, recv_of, stores_to_attr, where
-from .mgr import MGR, CORE, const_resolver, self_call
+from .mgr import comprehension_facts, MGR, CORE, const_resolver, self_call
 from .c01 import recipient_sends
 
 
@@ -95,7 +95,7 @@ def run(prog: Program, chk: Check):
             # paths that did not come through this iteration's body are not of interest: they carry no body fact;
             # the loop-entry edge comes from outside the body and was skipped above
             nback += 1
-            fp = [fold(p) for p in paths]
+            fp = [fold(list(p) + comprehension_facts(fm.node, rv)) for p in paths]
             bad = guards.any_path_implies(fp, goal_inelig)
             B.decide(not bad, fkey(fm, f"silent-path-from:{norm(g.nodes[e.src].ast)[:70] if g.nodes[e.src].ast is not None else g.nodes[e.src].kind}"),
                      where(fm, g.nodes[e.src].ast if g.nodes[e.src].ast is not None else lp),
